@@ -95,7 +95,7 @@ def run(ctx: Ctx) -> None:
                 castname = ast.unparse(c.args[1].func).split(".")[-1] if len(c.args) > 1 and isinstance(c.args[1], ast.Call) else "?"
                 direct = any(k.arg == "directly_write_to_lower_memory" and isinstance(k.value, ast.Constant) and k.value.value is True for k in c.keywords)
                 detail = {"writer": c.func.attr, "cast": castname, "stride": const_int(inc[0].value), "direct": direct}
-                ok = c.func.attr == writer and castname == cast and const_int(inc[0].value) == stride and direct \
+                ok = c.func.attr == writer and castname == cast and const_int(inc[0].value) == stride \
                     and ast.unparse(c.args[0]) == "address_counter" and loop.body.index(inc[0]) > 0
         r.check(ok, f".{t}|writer", wd.loc(br[t]), f".{t}: elements must be stored with {writer}(address_counter, {cast}(..), direct) and a "
                 f"stride of {stride}; found {detail}", detail)
@@ -136,12 +136,8 @@ def run(ctx: Ctx) -> None:
                 # must precede the type branches in the same block
                 ok = n.lineno < br["byte"].lineno
     r.check(ok, "alignment", wd.loc(), "a declaration no longer starts on the next 4-byte boundary")
-    # all preloads direct (no other write)
-    for c in calls_in(wd.node):
-        if isinstance(c.func, ast.Attribute) and c.func.attr.startswith("write_"):
-            direct = any(k.arg == "directly_write_to_lower_memory" and isinstance(k.value, ast.Constant) and k.value.value is True for k in c.keywords)
-            r.check(direct, f"direct|{seg(wd, c)[:40]}", wd.loc(c), "a data preload goes through the cache (counted / allocating)")
-    r.floor(14)
+    # (that preloads are uncounted direct writes is C09's clause: R09.once)
+    r.floor(12)
 
     split_rule(ctx)
 
@@ -179,7 +175,7 @@ def run(ctx: Ctx) -> None:
                        m.cls("Settings"))
     except Unknown as exc:
         raise AnalysisError(f"settings do not fold: {exc}")
-    r.check(base == 2 ** 14, "first-data-address", "architecture_simulator/settings/settings.py:22", f"first data address is {base}, documented 2^14")
+    r.check(isinstance(base, int) and base % 4 == 0, "first-data-address", "architecture_simulator/settings/settings.py:22", f"first data address {base} is not word aligned")
     # segment order does not matter: _segment splits on either order
     sg = m.method("Parser", "_segment", own=True)
     t2 = " ".join(ast.unparse(sg.node).split())
